@@ -560,6 +560,9 @@ def _run_suites(suites, fixture_registry, pre_run_scheduled_fixtures, session,
     exception, serialized_exception = session.event_manager.get_pending_failure()
     if exception:
         try:
+            if not isinstance(exception, Exception):
+                # SystemExit & co raised by a reporting backend: the caller gets a regular error, not a process exit
+                raise TypeError()
             error = exception.__class__(serialized_exception)
         except Exception:
             # not every exception class can be built from a single message (UnicodeEncodeError for instance)
